@@ -390,7 +390,8 @@ func createStrFunctions() { //nolint:funlen // we do have quite a few, yes.
 	strFn.Name = "join"
 	strFn.Help = "joins an array of string with the optional separator"
 	strFn.ArgTypes = []object.Type{object.ARRAY, object.STRING}
-	strFn.Callback = func(_ any, _ string, args []object.Object) object.Object {
+	strFn.Callback = func(env any, _ string, args []object.Object) object.Object {
+		s := env.(*eval.State)
 		arr := object.Elements(args[0])
 		sep := ""
 		if len(args) == 2 {
@@ -399,9 +400,17 @@ func createStrFunctions() { //nolint:funlen // we do have quite a few, yes.
 		strs := make([]string, len(arr))
 		totalLen := 0
 		sepLen := len(sep)
+		nextCheck := 0
 		for i, a := range arr {
 			if a.Type() != object.STRING {
 				strs[i] = a.Inspect()
+				if s.Context != nil && s.Context.Err() != nil { // (printing many big elements takes time.)
+					return s.Error(s.Context.Err())
+				}
+				if totalLen > nextCheck { // what was printed so far stays until the end: check each time it has doubled.
+					object.MustBeOk(totalLen / object.ObjectSize)
+					nextCheck = 2 * totalLen
+				}
 			} else {
 				strs[i] = a.(object.String).Value
 			}
@@ -760,14 +769,63 @@ func pow(args []object.Object) object.Object {
 	return object.Float{Value: result}
 }
 
+// sprintfSize is an upper bound of what fmt.Sprintf will build (fmt builds it in one piece, so it has to be
+// checked before): the format, every width and precision in it, and the arguments - each one once, or the
+// longest one for every verb when the format picks arguments by index or has more verbs than arguments.
+func sprintfSize(format string, args []object.Object) int {
+	const fmtMaxWidth = 1_000_000 // what fmt accepts as width or precision.
+	size := len(format)
+	verbs := 0
+	for i := 0; i < len(format); i++ {
+		if format[i] != '%' {
+			continue
+		}
+		verbs++
+		num := 0
+	flags:
+		for i++; i < len(format); i++ {
+			switch c := format[i]; {
+			case c >= '0' && c <= '9':
+				num = min(num*10+int(c-'0'), fmtMaxWidth) //nolint:mnd // decimal
+			case c == '*':
+				size += fmtMaxWidth
+			case strings.IndexByte("+-# .[]", c) >= 0:
+				size += num
+				num = 0
+			default: // the verb.
+				break flags
+			}
+		}
+		size += num
+	}
+	sumArgs, maxArg := 0, 0
+	for _, a := range args {
+		l := 32 //nolint:mnd // numbers, booleans...
+		switch a.Type() {
+		case object.STRING:
+			l = len(a.(object.String).Value)
+		case object.ARRAY, object.MAP:
+			l = len(a.Inspect()) // (about what fmt makes of it.)
+		}
+		sumArgs += l
+		maxArg = max(maxArg, l)
+	}
+	if verbs > len(args) || strings.IndexByte(format, '[') >= 0 {
+		return size + verbs*maxArg
+	}
+	return size + sumArgs
+}
+
 func sprintf(args []object.Object) object.Object {
-	res := fmt.Sprintf(args[0].(object.String).Value, object.Unwrap(args[1:], false)...)
+	format := args[0].(object.String).Value
+	object.MustBeOk(sprintfSize(format, args[1:]) / object.ObjectSize)
+	res := fmt.Sprintf(format, object.Unwrap(args[1:], false)...)
 	return object.String{Value: res}
 }
 
 func jsonSer(env any, _ string, args []object.Object) object.Object {
 	s := env.(*eval.State)
-	w := strings.Builder{}
+	w := object.GuardedBuilder{} // (the same string can be in the value many times: the result is not bounded by the argument.)
 	err := args[0].JSON(&w)
 	if err != nil {
 		return s.Error(err)
@@ -781,16 +839,96 @@ func jsonSerGo(env any, _ string, args []object.Object) object.Object {
 	var err error
 	var buf bytes.Buffer
 	encoder := json.NewEncoder(&buf)
-	if len(args) == 2 {
-		encoder.SetIndent("", args[1].(object.String).Value)
-	}
 	// Disable HTML escaping
 	encoder.SetEscapeHTML(false)
+	// The encoder builds its output in one piece: check the size first (the same string can be in the value many times).
+	object.MustBeOk(jsonSize(v) / object.ObjectSize)
 	err = encoder.Encode(v)
 	if err != nil {
 		return s.Error(err)
 	}
+	if len(args) == 2 {
+		// Indent what was encoded (what the encoder does itself when given the indent), once the size is known to be ok.
+		indent := args[1].(object.String).Value
+		compact := buf.Bytes()
+		object.MustBeOk(jsonIndentedSize(compact, len(indent)) / object.ObjectSize)
+		var indented bytes.Buffer
+		if err = json.Indent(&indented, compact, "", indent); err != nil {
+			return s.Error(err)
+		}
+		return object.String{Value: indented.String()}
+	}
 	return object.String{Value: buf.String()}
+}
+
+// jsonSize is (about) the size of the JSON encoding of an unwrapped value: its strings and a few bytes per element.
+func jsonSize(v any) int {
+	const perElem = 8
+	switch v := v.(type) {
+	case string:
+		size := len(v) + perElem
+		for i := 0; i < len(v); i++ {
+			if v[i] < ' ' {
+				size += 5 // \u00XX
+			}
+		}
+		return size
+	case []any:
+		size := perElem
+		for _, e := range v {
+			size += jsonSize(e)
+		}
+		return size
+	case map[string]any:
+		size := perElem
+		for k, e := range v {
+			size += len(k) + jsonSize(e)
+		}
+		return size
+	case map[any]any:
+		size := perElem
+		for k, e := range v {
+			size += jsonSize(k) + jsonSize(e)
+		}
+		return size
+	default:
+		return 3 * perElem
+	}
+}
+
+// jsonIndentedSize is the size json.Indent makes of compact JSON: a newline and the indent, times the nesting
+// level, in front of every element and closing bracket.
+func jsonIndentedSize(compact []byte, indentLen int) int {
+	size := len(compact)
+	depth := 0
+	inString := false
+	for i := 0; i < len(compact); i++ {
+		c := compact[i]
+		switch {
+		case inString:
+			if c == '\\' {
+				i++
+			} else if c == '"' {
+				inString = false
+			}
+		case c == '"':
+			inString = true
+		case c == '[' || c == '{':
+			depth++
+			size += 1 + depth*indentLen
+		case c == ',':
+			size += 1 + depth*indentLen
+		case c == ']' || c == '}':
+			depth--
+			size += 1 + depth*indentLen
+		case c == ':':
+			size++
+		}
+		if size < 0 {
+			return math.MaxInt
+		}
+	}
+	return size
 }
 
 func evalFunc(env any, name string, args []object.Object) object.Object {
